@@ -1,4 +1,4 @@
-// Demonstrations of the genuine defects F1..F14 found by the static rules of /verif
+// Demonstrations of the genuine defects F1..F15 found by the static rules of /verif
 // (see DESIGN.md §4 and KNOWN_FINDINGS.txt). Each test states the behaviour the property
 // requires; it FAILS on the pinned snapshot and PASSES once the corresponding `fix:` commit
 // is applied. This file is evidence for triage only -- no check in MANIFEST.json runs it.
@@ -480,6 +480,32 @@ fn f14_record_after_aes_extra_is_parsed() {
     let mut ar = zip::ZipArchive::new(Cursor::new(z)).expect("well-formed archive");
     let f = ar.by_index_raw(0).unwrap();
     assert_eq!(f.size(), real, "the ZIP64 record behind the AE-x record was skipped: the walk left the record boundary");
+}
+
+// ------------------------------------------------------------------ F15 (C12, also C13 / C14)
+#[test]
+fn f15_refused_start_does_not_damage_the_raw_copy_before_it() {
+    // source archive with one deflated entry (compressed bytes differ from the content)
+    let content: Vec<u8> = b"hello raw copy ".iter().cycle().take(3000).copied().collect();
+    let mut src = zip::ZipWriter::new(Cursor::new(Vec::new()));
+    src.start_file("a.txt", zip::write::FileOptions::default().compression_method(zip::CompressionMethod::Deflated)).unwrap();
+    src.write_all(&content).unwrap();
+    let src = src.finish().unwrap().into_inner();
+    let mut ar = zip::ZipArchive::new(Cursor::new(src)).unwrap();
+    let mut w = zip::ZipWriter::new(Cursor::new(Vec::new()));
+    w.raw_copy_file(ar.by_index_raw(0).unwrap()).unwrap();
+    // documented misuse: a name that does not fit its 16-bit length field is refused ...
+    let long = "x".repeat(70_000);
+    assert!(w.start_file(long, zip::write::FileOptions::default()).is_err());
+    // ... and the archive finished afterwards holds exactly the entry whose creation succeeded, with its source's content
+    let out = w.finish().unwrap().into_inner();
+    let mut back = zip::ZipArchive::new(Cursor::new(out)).unwrap();
+    assert_eq!(back.len(), 1);
+    let mut f = back.by_index(0).unwrap();
+    assert_eq!((f.size(), f.crc32()), (3000, crc32fast::hash(&content)), "the refused start made finish() re-patch the raw copy from the accounting of its COMPRESSED bytes");
+    let mut got = Vec::new();
+    f.read_to_end(&mut got).unwrap();
+    assert_eq!(got, content);
 }
 
 #[allow(dead_code)]
